@@ -568,3 +568,156 @@ def invalid_program(rng):
   """A text that is not a Python program (must be refused as a code error)."""
   pre = rng.choice(['', 'probe.hit\n', 'probe.hit\nx = 1\n'])
   return pre + rng.choice(INVALID_SNIPPETS) + '\n'
+
+
+# -- programs whose run-time error happens below the top-level statement -------
+
+# (expression, needs import) — every one raises when evaluated.
+ERROR_EXPRS = [
+    ('1 // ({a} - {a})', None), ("int('x')", None), ("{{}}['k']", None), ('[][{a}]', None),
+    ('undefined_name_q', None), ('None.attr', None), ("sorted([{a}, 'a'])", None),
+    ('gl.index(99)', None), ("re.compile('(((')", 're'), ("json.loads('[[[[}}')", 'json'),
+    ('operator.truediv({a}, 0)', 'operator'),
+    ('functools.reduce(lambda p, q: p // q, [{a}, 0])', 'functools'),
+    ("string.Template('$').substitute()", 'string'),
+    ("fractions.Fraction(1, 0)", 'fractions'),
+]
+ERROR_STMTS = ["raise ValueError('deep')", "raise KeyError('deep') from None", 'assert {a} is None',
+               "raise OSError(2, 'deep')"]
+LINK_KINDS = ['def', 'def', 'def-local', 'lambda', 'comp', 'genexp', 'method', 'recursion',
+              'map', 'try-finally', 'reraise', 'sorted-key', 'static', 'closure', 'dictcomp']
+
+
+def deep_error_program(rng):
+  """A program whose run-time error is raised `k` calls below a top-level statement.
+
+  The statement that triggers the error is somewhere in the middle of the
+  program (or is its last statement, in expression or assignment form, also
+  nested in a compound statement or spread over several lines); the calls go
+  through functions, lambdas, methods, comprehensions, generator expressions,
+  recursion and callbacks of builtins defined by the program, and the error is
+  raised by the program's own code or inside standard-library code it calls.
+  Deterministic; what is raised where is found by plain execution."""
+  n_links = rng.choice([0, 0, 1, 2, 3, 4, 5, 6, 7, 8, 3, 4, 5, 6])
+  imports = []
+  defs = []          # list of blocks (lists of lines), each defines one name
+  name_of = lambda k: f'h{k}'
+  # the bottom: what raises
+  if rng.random() < 0.3 and n_links:
+    bottom_stmt = rng.choice(ERROR_STMTS).format(a='a')
+    bottom_expr = None
+  else:
+    bottom_expr, imp = rng.choice(ERROR_EXPRS)
+    bottom_stmt = None
+    if imp:
+      imports.append(imp)
+  for k in range(n_links, 0, -1):
+    f = name_of(k)
+    last = k == n_links
+    if last:
+      if bottom_stmt is not None:
+        defs.append([f'def {f}(a):', f'  {bottom_stmt}', '  return a'])
+        continue
+      nxt = None
+      call = lambda arg, e=bottom_expr: '(' + e.format(a=arg) + ')'
+    else:
+      nxt = name_of(k + 1)
+      call = lambda arg, n=nxt: f'{n}({arg})'
+    kind = rng.choice(LINK_KINDS)
+    if kind == 'def':
+      defs.append([f'def {f}(a):', f'  return {call("a")}'])
+    elif kind == 'def-local':
+      defs.append([f'def {f}(a):', '  b = a + 1', '  # note', f'  c = {call("b")}', '  return c'])
+    elif kind == 'lambda':
+      defs.append([f'{f} = lambda a: {call("a")}'])
+    elif kind == 'comp':
+      defs.append([f'def {f}(a):', f'  return [{call("x")} for x in [a, a]][0]'])
+    elif kind == 'dictcomp':
+      defs.append([f'def {f}(a):', '  return {x: ' + call('x') + ' for x in (a,)}[a]'])
+    elif kind == 'genexp':
+      defs.append([f'def {f}(a):', f'  return sum({call("x")} for x in [a])'])
+    elif kind == 'method':
+      c = f'K{k}'
+      defs.append([f'class {c}:', '  def __init__(self, a):', '    self.a = a',
+                   '  def go(self):', f'    return {call("self.a")}',
+                   f'def {f}(a):', f'  return {c}(a).go()'])
+    elif kind == 'static':
+      c = f'K{k}'
+      defs.append([f'class {c}:', '  @staticmethod', '  def go(a):', f'    return {call("a")}',
+                   f'{f} = {c}.go'])
+    elif kind == 'recursion':
+      r = rng.randint(1, 4)
+      defs.append([f'def {f}(a, n={r}):', '  if n == 0:', f'    return {call("a")}',
+                   f'  return {f}(a, n - 1)'])
+    elif kind == 'map':
+      if nxt is not None:
+        defs.append([f'def {f}(a):', f'  return list(map({nxt}, [a]))[0]'])
+      else:
+        defs.append([f'def {f}(a):', f'  return list(map(lambda x: {call("x")}, [a]))[0]'])
+    elif kind == 'sorted-key':
+      defs.append([f'def {f}(a):', f'  return sorted([a, a + 1], key=lambda x: {call("x")})[0]'])
+    elif kind == 'try-finally':
+      defs.append([f'def {f}(a):', '  try:', f'    return {call("a")}', '  finally:', '    a = 0'])
+    elif kind == 'reraise':
+      defs.append([f'def {f}(a):', '  try:', f'    return {call("a")}',
+                   '  except Exception as err:', "    raise RuntimeError('wrapped') from err"])
+    elif kind == 'closure':
+      defs.append([f'def {f}(a):', '  def inner():', f'    return {call("a")}', '  return inner()'])
+    else:
+      raise AssertionError(kind)
+  rng.shuffle(defs)
+  arg = str(rng.randint(1, 5))
+  if n_links:
+    trig = f'{name_of(1)}({arg})'
+  else:
+    trig = '(' + bottom_expr.format(a=arg) + ')'
+  v = 'r0'
+  form = rng.choice(['expr', 'assign', 'assign', 'call-arg', 'multi-line', 'multi-line-2', 'for', 'if',
+                     'with', 'try-finally', 'aug', 'tuple', 'while', 'sub'])
+  if form == 'expr':
+    trigger = [trig]
+  elif form == 'assign':
+    trigger = [f'{v} = {trig}']
+  elif form == 'call-arg':
+    trigger = [f'{v} = max(1, {trig})']
+  elif form == 'multi-line':
+    trigger = [f'{v} = max(', '    1,', f'    {trig},', '    2)']
+  elif form == 'multi-line-2':
+    trigger = [f'{v} = [', '    g0,', f'    {trig}', ']']
+  elif form == 'for':
+    trigger = ['for it in [1, 2]:', '  g0 = it', f'  {v} = {trig}']
+  elif form == 'if':
+    trigger = ['if g0:', f'  {v} = {trig}', 'else:', '  pass']
+  elif form == 'with':
+    trigger = ['with cm:', '  pass', f'  {trig}']
+  elif form == 'try-finally':
+    trigger = ['try:', f'  {v} = {trig}', 'finally:', '  g1 = 0']
+  elif form == 'aug':
+    trigger = [f'g0 += {trig}']
+  elif form == 'tuple':
+    trigger = [f'{v}, r1 = {trig}, 2']
+  elif form == 'while':
+    trigger = ['while True:', f'  {trig}', '  break']
+  elif form == 'sub':
+    trigger = [f'gl[0] = {trig}']
+  fillers = ['t{n} = {n}', 'gl.append({n})', 'print({n})', '# comment {n}', '', 't{n} = [\n    {n},\n]',
+             "gd['n{n}'] = {n}", 'pass', 'def unused{n}():\n  return {n}']
+  lines = ['probe.hit']
+  lines += [f'import {m}' for m in imports]
+  n = 0
+  for blk in defs:
+    while rng.random() < 0.3:
+      n += 1
+      lines += rng.choice(fillers).format(n=n).split('\n')
+    lines += blk
+  while rng.random() < 0.5:
+    n += 1
+    lines += rng.choice(fillers).format(n=n).split('\n')
+  lines += trigger
+  if rng.random() < 0.6:                 # otherwise the trigger is the last statement
+    for _ in range(rng.randint(1, 3)):
+      n += 1
+      lines += rng.choice(fillers[:4] + fillers[5:]).format(n=n).split('\n')
+    if rng.random() < 0.5:
+      lines.append(rng.choice(['t1', 'g0 + 1', 'z9 = 4']))
+  return '\n'.join(lines) + '\n'
